@@ -392,10 +392,10 @@ func (tc *taintCtx) boundsAt(e ast.Expr, loc core.Loc) bounds {
 				}
 			}
 		case *ast.CallExpr:
-			// audited wrapper predicate: canCollectArray(x) true ⇒ x <= maxArraySize (when maxArraySize >= 0)
-			if core.CalleeName(info, x) == ggmlPkg+".containerGGUF.canCollectArray" && a.Val && len(x.Args) == 1 && same(x.Args[0]) {
-				b.upper = true
-			}
+			// canCollectArray(x) is NOT an upper bound: with maxArraySize < 0 (verbose show) it
+			// accepts every count — the first version of this rule trusted it and missed the
+			// unbounded make in the array readers (repaired in /repo, see DESIGN §10)
+			_ = x
 		}
 	}
 	return b
